@@ -8,6 +8,7 @@ CONSTANTS
   MayThrow = FALSE
   Spurious = FALSE
   AnyOrder = FALSE
+  StopUnlocked = FALSE
 SPECIFICATION FairSpec
 PROPERTIES MapReturns ShutdownTerminates
 CHECK_DEADLOCK FALSE
